@@ -250,6 +250,7 @@ func (e *Env) tr(x Expr) Val {
 		n := *e
 		n.st = e.old
 		n.phiOv = nil
+		n.at = nil
 		return n.tr(x.X)
 	case EUn:
 		v := e.tr(x.X)
@@ -449,6 +450,19 @@ func (e *Env) unifyNil(l, r Val, x Expr) (Val, Val) {
 }
 
 func (e *Env) ident(name string) Val {
+	// inside a body (invariants, assertions, ghost code) a name denotes the current value of the
+	// source variable, also when it is a reassigned parameter; in pre/postconditions and under
+	// old() parameters denote their entry values
+	if e.act != nil && e.at != nil {
+		if v, ok := e.act.lookupLocal(name, e.at, e.atIdx, e.phiOv); ok {
+			if v.S == "$addr" {
+				pv := v
+				pv.S = "Ref"
+				return e.g.load(e.st, pv)
+			}
+			return v
+		}
+	}
 	if v, ok := e.vars[name]; ok {
 		return v
 	}
